@@ -240,6 +240,14 @@ def run_case(c):
     i, o = c["i"], c["o"]
     kind = kinds[i]
     w, p = fresh(key)
+    if c.get("warm"):
+        # the same request was served successfully before on this manager: whatever it left
+        # behind (caches, flags) must not change how the device's outcome is reported now
+        pre, pexc = mw.serve_line(mw.handler(p), json.dumps(REQS[key]).encode())
+        prep = mw.parse_reply(pre)
+        if pexc is not None or prep is None or prep["errorcode"] != 0:
+            raise Violation("warm-up-request-failed:%s" % REQS[key]["command"], "%r %r" % (
+                pre[:100], pexc))
     base = w.nex
     if isinstance(o, list):
         w.faults[base + i] = ("op", o[1], op_answer_data(kind, o[1]))
@@ -317,10 +325,28 @@ def run_case(c):
                 raise Violation("named-cause:%s:%#x->%d" % (kind, o, code),
                                 "%s -> %r; the documentation names code %s for this cause" % (
                                     where, rep, sorted(named)))
+    if c.get("warm"):
+        labels.append("warm")
     return Out(labels, o is not None)
 
 
-REQUIRED_LABELS = {t: ["outcome:sw", "outcome:op", "outcome:timeout", "outcome:read",
+class WarmCells:
+    """The same matrix restricted to the named / edge status words and the non-status
+    outcomes, each cell preceded by one successful run of the same request."""
+
+    def __init__(self, tier, seed):
+        self.base = Cells("quick", seed)
+
+    def __len__(self):
+        return len(self.base)
+
+    def __getitem__(self, i):
+        c = dict(self.base[i])
+        c["warm"] = True
+        return c
+
+
+REQUIRED_LABELS = {t: ["warm", "outcome:sw", "outcome:op", "outcome:timeout", "outcome:read",
                        "outcome:write", "outcome:None", "named-cause"] +
                    ["req:%s/%s" % k for k in NAMES] for t in ("quick", "thorough")}
 
@@ -328,4 +354,7 @@ REQUIRED_LABELS = {t: ["outcome:sw", "outcome:op", "outcome:timeout", "outcome:r
 def stages(tier):
     return [EnumStage("matrix", lambda t, s: Cells(t, s), run_case,
                       exhaustive={"thorough": True},
-                      budget_s={"quick": 150, "thorough": 2400})]
+                      budget_s={"quick": 150, "thorough": 2400}),
+            EnumStage("after-a-successful-run", lambda t, s: WarmCells(t, s), run_case,
+                      exhaustive={"quick": False, "thorough": False},
+                      budget_s={"quick": 150, "thorough": 600})]
